@@ -555,5 +555,5 @@ def cases(draw, max_extra):
 
 def search(ctx):
     scale = ctx.job.get("scale", 1)
-    n = (150000 if ctx.thorough else 14000) * scale
+    n = (150000 if ctx.thorough else 10000) * scale
     ctx.run_hypothesis("histories", cases(14 if ctx.thorough else 8), check, ctx.share(n))
